@@ -48,7 +48,7 @@ def streamRunOpen (o : StreamOpt) : SState → List (UInt8 × Bool) → Run × S
 def fwdLinesOpen (o : Opt) : List Bytes → Int → List BoF → Bool → Run × Bool
   | [], _, _, _ => (Run.empty, false)
   | line :: t, idx, rest, addNl =>
-    if o.eol = .newline && !validUtf8 line then (Run.fail, false)
+    if !validUtf8 line then (Run.fail, false)
     else
       let (w, rest', a) := fwdLine o line (idx + 1) rest addNl
       if rest'.isEmpty then (Run.ok (w ++ [o.eol.byte]), true)
